@@ -286,7 +286,7 @@ func sumOracles(run *gen.SumRun) []sumFail {
 	stepCfg[0] = cfgNow
 	nw := 0
 	for _, e := range run.Events {
-		for cur < e.Step {
+		for cur < e.Step && cur+1 < len(sc.Steps)+1 {
 			cur++
 			stepCfg[cur] = cfgNow
 		}
@@ -358,7 +358,7 @@ func sumOracles(run *gen.SumRun) []sumFail {
 	for i, r := range run.Results {
 		// (with interference the stored file is another process's and no longer this client's head)
 		c0, ok0 := sumNoteHead(w, stepCfg[i])
-		if !ok0 || len(stepCfg[i]) == 0 || len(sc.Interf) > 0 {
+		if !ok0 || len(stepCfg[i]) == 0 || len(sc.Interf) > 0 || sc.Par != nil {
 			continue
 		}
 		presented := false
@@ -539,7 +539,7 @@ func sumDo(c *hx.Ctx, sc gen.SumScenario, b *sumBudget, wantModel bool) *gen.Sum
 		c.Nontrivial(nt)
 	}
 	sumBranchCounts(c, run)
-	if wantModel && b != nil {
+	if wantModel && b != nil && sc.Par == nil {
 		cost := sumCost(run)
 		if cost <= b.left {
 			b.left -= cost
